@@ -137,6 +137,7 @@ macro_rules! dispatch {
             "C04" => $f(p_e1::C04, $($arg),*),
             "C06" => $f(p_e1::C06, $($arg),*),
             "C07" => $f(p_e1::C07, $($arg),*),
+            "C08" => $f(p_e2::C08, $($arg),*),
             "C09" => $f(model::C09, $($arg),*),
             "C10" => $f(p_e1::C10, $($arg),*),
             "C13" => $f(p_e2::C13, $($arg),*),
